@@ -641,6 +641,9 @@ def check(run: Run) -> None:
     from ..indexscen import create_rules, reindex_rules, writeback_rules
 
     reindex_rules(run, model, dict(refuse="C08.R4"))
+    from ..indexscen import bus_rules
+
+    bus_rules(run, model, "C08.R4")
     create_rules(run, model, "C08.R4")
     writeback_rules(run, model, "C08.R4")
 
@@ -672,6 +675,29 @@ def check(run: Run) -> None:
         k += 1
         if first_index(p, lambda x: isinstance(x, ast.Call) and isinstance(x.func, ast.Attribute) and x.func.attr == "append" and "errors" in ast.unparse(x.func.value)) < 0:
             all_rec = False
+    # the callback itself must not raise: ANTLR calls it with e=None for the errors it repairs inline (a missing / an extraneous token) -- an exception here escapes from parser.prog(),
+    # which no handler fences, so compiling the page dies instead of flagging it
+    from ..absint import Interp as _I8, Raised as _R8, State as _S8
+    from ..absval import HObj as _H8, Opaque as _O8
+
+    st8 = _S8()
+    errs = st8.alloc(_H8("list"))
+    em8 = st8.alloc(_H8("obj", cls=f"{FC}.ErrorManager", fields=dict(errors=errs)))
+    try:
+        res8 = _I8(model).run_function(f"{FC}.ErrorManager.syntaxError", [em8, _O8("vparser"), _O8("vtoken"), 3, 7, "missing ']]' at '\\n'", None], st=st8)
+    except Exception as ex8:  # noqa: BLE001
+        res8 = None
+        run.undecided("C08.R1", "ErrorManager.syntaxError", f"cannot interpret: {type(ex8).__name__}: {str(ex8)[:100]}")
+    for v8, s8 in res8 or []:
+        if isinstance(v8, _R8):
+            run.refuted("C08.R1", "ErrorManager.syntaxError", f"raises {v8.exc} when called without an exception object",
+                        f"ErrorManager.syntaxError raises {v8.exc} ({v8.msg}) when ANTLR reports an error it repaired inline (e is None: a missing or an extraneous token): the exception escapes from "
+                        "parser.prog() and compiling the damaged page dies with an internal error instead of returning a flagged page", file=FILE_C, node=v8.node or se.node)
+        elif s8.imprecise:
+            run.undecided("C08.R1", "ErrorManager.syntaxError", "; ".join(s8.imprecise[:2]))
+        else:
+            run.check("C08.R5", "an inline-repaired syntax error (no exception object) is recorded", len(s8.obj(errs).items) == 1, "ErrorManager.syntaxError", f"records {len(s8.obj(errs).items)} entries",
+                      f"ErrorManager.syntaxError records {len(s8.obj(errs).items)} entries for one reported error", file=FILE_C, node=se.node)
     run.check("C08.R5", "every syntax error reported by the parser is recorded", all_rec and k > 0, "ErrorManager.syntaxError", "a path returns without recording the error",
               "ErrorManager.syntaxError can return without appending to `errors`: some syntax errors (e.g. those at end of file) are ignored, the page is not flagged and is indexed partially", file=FILE_C, node=se.node)
     # reading the page never fails on its bytes: whatever opens the file decodes tolerantly
